@@ -7,6 +7,7 @@ CONSTANTS
   ArmAt = "commit"
   Upfront = TRUE
   SplitStart = TRUE
+  Cap <- CapAll
 SPECIFICATION Spec
 INVARIANTS TypeOK NoInflightBroadcast OnlyCommitted
 PROPERTIES PSafety Delivered Converged
